@@ -9,6 +9,7 @@ import (
 	"fmt"
 	"os"
 	"runtime/debug"
+	"sort"
 
 	corestore "cosmossdk.io/core/store"
 
@@ -485,6 +486,24 @@ func (w *World) apply(op Op) *Violation {
 				return viol("api", "GetImmutable(%d) of a retained version failed: %v", v, err)
 			}
 			w.held[v], w.heldC[v] = it, w.M.Conts[v]
+		}
+		// the handles are used once right away (whatever a handle memoises on first use is memoised while its
+		// version has the position it has now, e.g. is the latest) and again in every later state
+		probeSet := map[string]bool{}
+		for _, c := range w.M.Conts {
+			for k := range c {
+				probeSet[k] = true
+			}
+		}
+		var probes [][]byte
+		for k := range probeSet {
+			probes = append(probes, []byte(k))
+		}
+		sort.Slice(probes, func(i, j int) bool { return bytes.Compare(probes[i], probes[j]) < 0 })
+		for _, v := range w.M.Versions() {
+			if vi := checkReader(fmt.Sprintf("ImmutableTree of version %d just obtained", v), w.held[v], w.heldC[v], probes); vi != nil {
+				return vi
+			}
 		}
 		return nil
 	default:
